@@ -503,6 +503,7 @@ fn value_id(v: &RValue) -> String {
 				let kind = match xs.first() {
 					Some(RValue::Str(s)) if s == "x" => "small",
 					Some(RValue::Str(s)) if s == "p" => "pushed",
+					Some(RValue::Str(s)) if s == "h" => "huge",
 					_ => "big",
 				};
 				format!("{kind}#{a}")
